@@ -26,13 +26,17 @@ def is_nt(s):
     return s[:1].isupper()
 
 
+def _is_word(ch):
+    return ch.isalnum() or ch == "_"
+
+
 class TDef:
     """How a terminal is recognised."""
 
     __slots__ = ("kind", "text", "prior", "prefer", "finish", "_re", "_rei")
 
     def __init__(self, kind, text, prior=10, prefer=False, finish=None):
-        assert kind in ("str", "re")
+        assert kind in ("str", "re", "kw")
         self.kind = kind
         self.text = text
         self.prior = prior
@@ -42,11 +46,22 @@ class TDef:
 
     def match(self, s, pos, ignore_case=False):
         """End position of the (non-empty) match at pos or None."""
-        if self.kind == "str":
+        if self.kind in ("str", "kw"):
             piece = s[pos : pos + len(self.text)]
             if ignore_case:
-                return pos + len(self.text) if piece.lower() == self.text.lower() else None
-            return pos + len(self.text) if piece == self.text else None
+                ok = piece.lower() == self.text.lower()
+            else:
+                ok = piece == self.text
+            if not ok:
+                return None
+            e = pos + len(self.text)
+            if self.kind == "kw":
+                # keyword: no word character immediately before or after
+                if pos > 0 and _is_word(s[pos - 1]):
+                    return None
+                if e < len(s) and _is_word(s[e]):
+                    return None
+            return e
         if ignore_case:
             if self._rei is None:
                 self._rei = re.compile(self.text, re.IGNORECASE)
@@ -60,7 +75,7 @@ class TDef:
         return None
 
     def decl(self, name):
-        body = '"%s"' % self.text.replace("\\", "\\\\").replace('"', '\\"') if self.kind == "str" else "/%s/" % self.text
+        body = '"%s"' % self.text.replace("\\", "\\\\").replace('"', '\\"') if self.kind in ("str", "kw") else "/%s/" % self.text
         meta = []
         if self.prior != 10:
             meta.append(str(self.prior))
